@@ -26,6 +26,7 @@ type c10Op struct {
 type c10In struct {
 	Ops        []c10Op `json:"ops"`
 	Concurrent int     `json:"concurrent,omitempty"` // >0: that many goroutines push first (stress), ops follow
+	Stall      []int   `json:"stall,omitempty"`      // acknowledgements h1,h2,... arriving (each on its own goroutine, as Client.recv routes them) while the retransmission triggered by <a h='0'/> is stalled in a blocking write; Ops are the sends made before
 }
 
 type c10 struct{}
@@ -37,7 +38,7 @@ func (c10) RunFn() string { return "run_C10" }
 func (c10) Workers() int  { return 8 }
 func (c10) Journal() bool { return true }
 func (c10) Rule() string {
-	return "random histories (0-40 ops) over Send(stanza), Send(<r/>), Send(<a/>), the server's <r/> answered by the real receive loop, SendRaw(stanza string) and server <a h/> with h below, equal to, above the number sent, stale, repeated and negative-free (h is unsigned on the wire) through the real Client.Send/SendRaw and Router.route(SMAnswer) on a recording transport; after every op the queue (ids, payloads) and the bytes written are compared; plus concurrent senders (8 goroutines) followed by acknowledgements; distinct = op-kind/h-class sequence; non-trivial = at least one ack with stanzas held"
+	return "random histories (0-40 ops) over Send(stanza), Send(<r/>), Send(<a/>), the server's <r/> answered by the real receive loop, SendRaw(stanza string) and server <a h/> with h below, equal to, above the number sent, stale, repeated and negative-free (h is unsigned on the wire) through the real Client.Send/SendRaw and Router.route(SMAnswer) on a recording transport; after every op the queue (ids, payloads) and the bytes written are compared; plus concurrent senders (8 goroutines) followed by acknowledgements, and acknowledgements piling up on their own goroutines behind a retransmission stalled in a blocking write (only what is held afterwards is compared); distinct = op-kind/h-class sequence; non-trivial = at least one ack with stanzas held"
 }
 
 func (c10) Decode(raw json.RawMessage) (interface{}, error) {
@@ -99,6 +100,23 @@ func (c10) Gen(r *rand.Rand, tier string) []interface{} {
 			}
 		}
 		out = append(out, c10In{Ops: ops})
+	}
+	// acknowledgements piling up behind a stalled retransmission
+	ns := 12
+	if tier == "thorough" {
+		ns = 200
+	}
+	for i := 0; i < ns; i++ {
+		n := 2 + r.Intn(5)
+		var ops []c10Op
+		for j := 0; j < n; j++ {
+			ops = append(ops, c10Op{Op: "raw", Body: fmt.Sprintf("<message id='st%d'/>", j)})
+		}
+		var hs []int
+		for k := 1 + r.Intn(3); k > 0; k-- {
+			hs = append(hs, 1+r.Intn(n))
+		}
+		out = append(out, c10In{Ops: ops, Stall: hs})
 	}
 	// concurrent senders
 	nc := 20
@@ -230,6 +248,35 @@ func (c10) Run(inp interface{}) Sx {
 		}
 		steps = append(steps, snapshot())
 	}
+	if len(in.Stall) > 0 {
+		gate := make(chan struct{})
+		st.mu.Lock()
+		if st.blockAt == nil {
+			st.blockAt = map[int]chan struct{}{}
+		}
+		st.blockAt[st.nwrites+1] = gate // the first re-sent stanza stalls
+		st.mu.Unlock()
+		var wg sync.WaitGroup
+		wg.Add(1)
+		go func() { defer wg.Done(); xmpp.VerifRoute(router, c, stanza.SMAnswer{H: 0}) }()
+		time.Sleep(2 * time.Millisecond) // now inside SendMissingStz, holding the queue lock, blocked in Write
+		for _, h := range in.Stall {
+			wg.Add(1)
+			go func(h int) { defer wg.Done(); xmpp.VerifRoute(router, c, stanza.SMAnswer{H: uint(h)}) }(h)
+		}
+		time.Sleep(2 * time.Millisecond) // all parked on the lock
+		close(gate)
+		done := make(chan struct{})
+		go func() { wg.Wait(); close(done) }()
+		select {
+		case <-done:
+		case <-time.After(3 * time.Second):
+			close(st.feed)
+			return L(SBytes("acks-deadlocked"))
+		}
+		fin := snapshot()
+		steps = append(steps, L(L(), fin.L[1])) // the order of the writes depends on the schedule: only what is held is compared
+	}
 	close(st.feed)
 	return LS(steps)
 }
@@ -263,6 +310,13 @@ func (p c10) InputObs(inp interface{}, obs Sx) Sx {
 			// no stanza is ever received in these histories: the answer reports h=0
 			ops = append(ops, L(Z(0), Z(2), SBytes(`<a xmlns="urn:xmpp:sm:3" h="0"></a>`)))
 		}
+	}
+	if len(in.Stall) > 0 {
+		acks := []Sx{L(Z(2), Z(0))}
+		for _, h := range in.Stall {
+			acks = append(acks, L(Z(2), Zi(h)))
+		}
+		ops = append(ops, L(Z(8), LS(acks)))
 	}
 	return LS(ops)
 }
@@ -313,6 +367,11 @@ func (c10) Oracle(inp interface{}, obs Sx) (string, string) {
 			}
 		}
 		idx = 1
+	}
+	if len(in.Stall) > 0 {
+		if len(steps) != idx+len(in.Ops)+1 {
+			return "acknowledgements behind a stalled retransmission never finished: " + obs.String(), "stall-deadlock"
+		}
 	}
 	for oi, o := range in.Ops {
 		if idx+oi >= len(steps) {
@@ -374,13 +433,36 @@ func (c10) Oracle(inp interface{}, obs Sx) (string, string) {
 			}
 		}
 	}
+	if len(in.Stall) > 0 {
+		max := 0
+		for _, h := range in.Stall {
+			if h > max {
+				max = h
+			}
+		}
+		if max > len(sent) {
+			max = len(sent)
+		}
+		qx := steps[len(steps)-1].L[1].L
+		if len(qx) != len(sent)-max {
+			return fmt.Sprintf("acknowledgements %v arrived while a retransmission was stalled: highest h is %d of %d stanzas sent, but %d are held", in.Stall, max, len(sent), len(qx)), "stall-held-count"
+		}
+		for i, e := range qx {
+			if string(bytesOf(e.L[1])) != sent[max+i] || e.L[0].Z != int64(max+i+1) {
+				return fmt.Sprintf("acknowledgements %v behind a stalled retransmission: held entry %d is not stanza number %d", in.Stall, i, max+i+1), "stall-held-content"
+			}
+		}
+	}
 	return "", ""
 }
 
 func (c10) Key(inp interface{}) (string, bool) {
 	in := inp.(c10In)
 	var b strings.Builder
-	fmt.Fprintf(&b, "c%d:", in.Concurrent)
+	fmt.Fprintf(&b, "c%d st%v:", in.Concurrent, in.Stall)
+	if len(in.Stall) > 0 {
+		hist("stalled-retransmission")
+	}
 	sent, acked, nt := in.Concurrent*8, 0, false
 	for _, o := range in.Ops {
 		switch o.Op {
